@@ -5,12 +5,14 @@ verus! {
 //@include shims/core.rs
 //@include shims/alloc_free.rs
 //@include shims/cursor.rs
+//@include shims/asref.rs
+//@include shims/codecs.rs
 //@include spec/hash.rs
 //@enum BSVErrors @ src/errors/mod.rs
 //@enum OpCodes @ src/script/op_codes.rs clone copy partialeq eq
 //@enumtable OpCodes @ src/script/op_codes.rs from_u8
 //@enum ScriptBit @ src/script/script_bit.rs clonespec
-//@struct Script @ src/script/mod.rs clone
+//@struct Script @ src/script/mod.rs clone default
 //@struct Hash @ src/hash/mod.rs clone
 //@enum SigHash @ src/transaction/sighash.rs clone copy partialeq eq
 //@enumtable SigHash @ src/transaction/sighash.rs from_u8
@@ -40,7 +42,14 @@ impl TxIn {
 //@fn TxIn::is_coinbase_outpoint_impl
 //@fn TxIn::is_coinbase_impl
 //@fn TxIn::read_in
+//@fn TxIn::from_hex_impl
+//@fn TxIn::from_outpoint_bytes_impl
+//@fn TxIn::set_prev_tx_id
+//@fn TxIn::set_vout
 //@stubrest TxIn
+}
+impl Default for TxIn {
+//@fn Default for TxIn::default
 }
 impl TxOut {
 //@fn TxOut::to_bytes_impl
@@ -48,6 +57,7 @@ impl TxOut {
 //@fn TxOut::new
 //@fn TxOut::get_satoshis
 //@fn TxOut::read_in
+//@fn TxOut::from_hex_impl
 //@stubrest TxOut
 }
 impl Hash {
@@ -66,6 +76,7 @@ impl Transaction {
 //@fn Transaction::get_id_impl
 //@fn Transaction::is_coinbase_impl
 //@fn Transaction::from_bytes_impl
+//@fn Transaction::from_hex_impl
 //@stubrest Transaction
 }
 } // verus!
